@@ -36,6 +36,7 @@ def abs_program(r):
         ops.append({"op": "flow", "kind": "import", "name": "imp3", "dst": "A", "param": rate(), "split": r.random() < 0.5})
         flows.append(("imp3", "import", None, "A"))
     used_strain = False
+    applied = []
     pool = [("loc", ["u", "v", "w"]), ("risk", ["lo", "hi"]), ("vac", ["n", "y", "z"])]
     r.shuffle(pool)
     feat = {}
@@ -58,11 +59,22 @@ def abs_program(r):
                     if z < 0.3: adjs.append([s_, None])
                     elif z < 0.7: adjs.append([s_, ["mul", {"c": r.choice(["2", "1/2", "3"])}]])
                     else: adjs.append([s_, ["ovr", rate()]])
-                fadj.append({"flow": nm, "adjs": adjs})
+                d_ = {"flow": nm, "adjs": adjs}
+                # every second declaration is RESTRICTED to the copies whose source (destination) lies in one stratum of an EARLIER stratification:
+                # the other copies of the flow are not matched by any declaration and get the default treatment (even split when only the
+                # destination is stratified, plain copies otherwise)
+                if applied and r.random() < 0.5:
+                    pn, pstrata, pcomps = r.choice(applied)
+                    if src in pcomps and (dst not in pcomps or r.random() < 0.5):
+                        d_["src"] = [[pn, r.choice(pstrata)]]; feat["adj:filtered_by_earlier_stratification"] = feat.get("adj:filtered_by_earlier_stratification", 0) + 1
+                    elif dst in pcomps:
+                        d_["dst"] = [[pn, r.choice(pstrata)]]; feat["adj:filtered_by_earlier_stratification"] = feat.get("adj:filtered_by_earlier_stratification", 0) + 1
+                fadj.append(d_)
                 feat["adj:" + kind] = feat.get("adj:" + kind, 0) + 1
         if fadj: op["flow_adj"] = fadj
         feat[("strain" if strain else "plain") + ":" + "".join(comps)] = 1
         ops.append(op)
+        applied.append((name, strata, comps))
     return {"build": ops, "params": params, "meta": {"feat": feat, "strats": [1], "n_comps": None, "t0": "0", "dt": "1", "nsteps": 2}}
 
 
